@@ -87,8 +87,9 @@ def main():
             shutil.rmtree(os.path.join(ROOT, "replays", "out"), ignore_errors=True)
     dst = os.path.join(ROOT, "seeded", name)
     os.makedirs(dst, exist_ok=True)
-    shutil.copy(patch, os.path.join(dst, "patch.diff"))
-    if os.path.isdir(os.path.join(seed, "demo")):
+    if os.path.abspath(seed) != os.path.abspath(dst):
+        shutil.copy(patch, os.path.join(dst, "patch.diff"))
+    if os.path.abspath(seed) != os.path.abspath(dst) and os.path.isdir(os.path.join(seed, "demo")):
         shutil.rmtree(os.path.join(dst, "demo"), ignore_errors=True)
         shutil.copytree(os.path.join(seed, "demo"), os.path.join(dst, "demo"))
     prev = {}
